@@ -21,6 +21,8 @@ CLAUSES = (
     'MAX_TRIES, via temp file + rename, and is called every main-loop '
     'iteration. '
     'A failed statement always re-raises out of the statement helper (so the batch handler runs). '
+    ''
+    'Both DAOs execute their queued items on every process_queued_ops call once they exist (retry of a retained public batch). '
     'Not decided: SQLite transactional guarantees (trusted).')
 
 QUEUES = ('delete_queues', 'insert_queue', 'update_queues')
